@@ -5,9 +5,10 @@ from vlib.core import Case, hx
 from vlib import tdgen
 
 ID = "C20"
+NEEDS_CLI = True
 RULE = ("op td.hash with every EIP712Domain type drawn from the five standard fields: all 326 duplicate-free orderings of subsets (including empty), "
         "all sequences with one repeated field, one foreign name at each position, each field x each wrong type (incl. bytes032 / uint0256 spellings), "
-        "document without the domain type; domain values generated to match the declared members; the 31 accepted ones are hashed and judged by the EIP-712 spec; "
+        "document without the domain type; the command-line routes hash typeddata [--message-hash] and sign typeddata on a sample of well- and ill-formed domain types; domain values generated to match the declared members; the 31 accepted ones are hashed and judged by the EIP-712 spec; "
         "non-trivial = distinct domain type; judge = Spec.Eip712 (non-empty sublist of the standard fields)")
 EXHAUSTIVE_SWEEPS = {"quick": ["all 326 duplicate-free orderings of subsets of the 5 standard fields", "all single-repeat sequences of <= 3 fields", "5 fields x 14 wrong types"],
                      "thorough": ["all 326 duplicate-free orderings of subsets of the 5 standard fields", "all single-repeat sequences", "5 fields x 14 wrong types"]}
@@ -66,9 +67,27 @@ def gen(rng, tier):
                 add(s, "wrong-type")
     add([], "no-domain-type", include_domain_type=False)
     add([STD[0]], "no-domain-type", include_domain_type=False)
+    # every command-line route that reads typed data must apply the same check: hash typeddata, hash typeddata
+    # --message-hash, sign typeddata (a sample of well-formed and ill-formed domain types, file and stdin)
+    from vlib import bip39
+    mn = hx(" ".join(bip39.rand_phrase(rng, 12)))
+    sample = [[], [STD[1], STD[0]], [STD[0], STD[0]], [STD[0], ("foo", "string")], [(STD[2][0], "uint8")], [STD[4], STD[3]], [STD[0], STD[2], STD[1]],
+              [STD[0]], [STD[0], STD[2]], list(STD), [STD[3], STD[4]]]
+    for fields in sample:
+        d = hx(doc(fields))
+        for mh in (0, 1):
+            cases.append(Case("cli.hash_td %s %d" % (d, mh), tags=("cli", "hash_td", "message-hash:%d" % mh), runner="cli", meta={"via_file": rng.random() < 0.5}))
+        cases.append(Case("cli.sign_td %s - default %s" % (mn, d), tags=("cli", "sign_td"), runner="cli", meta={"via": {}, "via_file": rng.random() < 0.5}))
+    for mh in (0, 1):
+        cases.append(Case("cli.hash_td %s %d" % (hx(doc([STD[0]], include_domain_type=False)), mh), tags=("cli", "hash_td", "no-domain-type"), runner="cli", meta={"via_file": False}))
     # domain value not matching an accepted domain type
     cases.append(Case("td.hash " + hx(doc([STD[0], STD[2]], values={"name": "x"})), tags=("domain-value",)))
     cases.append(Case("td.hash " + hx(doc([STD[0]], values={"name": "x", "chainId": 1})), tags=("domain-value",)))
     cases.append(Case("td.hash " + hx(doc([STD[2]], values={"chainId": -1})), tags=("domain-value",)))
     cases.append(Case("td.hash " + hx(doc([STD[4]], values={"salt": "0x" + "11" * 31})), tags=("domain-value",)))
     return cases
+
+
+def run_cli(case):
+    from vlib import cli
+    return cli.run_cli(case)
